@@ -50,6 +50,22 @@ PROPS = {
                         "char::is_alphanumeric / is_whitespace as tabulated in Text.lean (exact on ASCII and on the non-ASCII ranges the generators use)",
                         "the result of each propagated parse call reaches the constructed message (translator checks `?` and absence of `let _`; the oracle checks the rest)"],
     },
+    "C10": {
+        "streams": ["c10"],
+        "driver": True,
+        "extractors": ["T5"],
+        "instances": lambda gen: sum(len(v) for v in gen.get("tables", {}).get("header_tags", {}).values()),
+        "rule": "envelopes assembled from documented components: block 1 (25 chars), block 2 input (17/18/21) and output (46/47), any subset / "
+                "order of the 13 block-3 tags and the 8 block-5 tags with values in their documented formats, around an MT199 body; each "
+                "parsed with SwiftParser::parse and re-serialised, blocks compared with an independent brace-matching reader; near-miss "
+                "headers (length +-1, wrong / lower-case direction, non-code monitoring character, partly readable lengths, non-ASCII) must "
+                "be rejected; bodies containing '-}', '{5:' or '{1:' probe structure independence; BasicHeader/ApplicationHeader parse+Display "
+                "and extract_block(1..5) are compared with the compiled Lean model on every ASCII case. distinct = (direction, tag subsets)",
+        "modelled": "BasicHeader / ApplicationHeader parse + Display, extract_block + find_matching_brace by hand; block-3/5 tag lists of parse "
+                    "and Display regenerated (T5); UserHeader/Trailer value handling is exercised by the oracle, not modelled",
+        "trusted_base": [KERNEL, TRANSLATOR, HARNESS, "hand model SwiftMT/Headers.lean (ASCII texts; compared on every generated case)"],
+        "assumptions": ["header texts are ASCII (byte offsets = character offsets); non-ASCII is covered by C07"],
+    },
     "C11": {
         "streams": ["c11"],
         "driver": True,
